@@ -10,7 +10,7 @@ import (
 
 var Assumptions = []string{
 	"simkafka (engine/simkafka) decodes produce requests with sarama's own decoder (the codec is judged independently by C09/C10); frame lengths are measured by a tap on the raw byte stream the client writes, independent of that decoder",
-	"one broker leading 1-2 partitions of one topic, no broker faults (C16 quantifies over sizes, configurations, versions and response latency, not over faults); Retry.Max=1, compression none, manual partitioner, ChannelBufferSize=16",
+	"one broker leading 1-2 partitions of one topic, no broker faults (C16 quantifies over sizes, configurations, versions and response latency, not over faults); Retry.Max=1, compression none (one small group of scenarios per codec for the oversize clause), manual partitioner, ChannelBufferSize=16",
 	"sarama.MaxRequestSize (a package variable) is lowered to 12288 inside the executions of the wire family and restored afterwards; sarama subtracts a fixed 10 KiB safety margin from it when batching",
 	"rejection of oversize messages is judged with a margin: demanded when key+value alone exceed MaxMessageBytes, forbidden when key+value+36 (the largest per-message overhead of any format) is below it, not judged in between",
 	"flush liveness is judged at quiescent points (every goroutine durably blocked, fake clock): with nothing pending at the broker, buffered messages must be below every configured threshold, absent when no Flush setting exists, and a full Flush.Frequency of fake time with nothing in flight must make a request arrive; a configuration with only Flush.Messages/Flush.Bytes and no Frequency is not required to flush a buffer below the thresholds (and the AsyncClose hang that follows is attributed to C12, not C16)",
@@ -63,6 +63,15 @@ func Scenarios() []gx.Sc {
 		gx.Sc{Name: "lim?ver=0.11.0.0&mmb=200&vs=6,6,39,39,40&parts=0,0,1,1,1&policy=input&faults=notleader&gates=" + retryGates, Q: 2, T: 3},
 		gx.Sc{Name: "lim?ver=0.10.2.0&mmb=200&vs=6,6,73,73,74&parts=0,0,1,1,1&policy=input&faults=notleader&gates=" + retryGates, Q: 2, T: 3},
 	)
+	// a compression codec does not lift the message limit: an oversize message is refused under every codec and format
+	for _, g := range gens {
+		for _, codec := range []string{"gzip", "snappy", "lz4"} {
+			if codec == "lz4" && g.name == "v0" {
+				continue // needs message format v1
+			}
+			out = append(out, gx.Sc{Name: fmt.Sprintf("lim?ver=%s&mmb=%d&codec=%s&vs=6,%d,6,%d&ks=-1,-1,-1,3&policy=input&closeany=1", g.ver, MMB, codec, MMB+1, MMB+100), Q: 1, T: 2})
+		}
+	}
 	// a systematic layer: five messages per generation, sizes straddling the batch estimate, two partitions,
 	// every trigger kind, latency (policy input) and early close
 	for _, g := range gens {
